@@ -231,10 +231,13 @@ class Task:
     def kill(self):
         self.killed = True
         if self.state == 'parked':
+            w = self.world
+            prev, w.cur = w.cur, self           # the unwinding code (finally blocks) runs as this task: its sleeps/sends vanish
             self.state = 'running'
             self.go.set()
             self.back.wait()
             self.back.clear()
+            w.cur = prev
         elif self.state == 'new':
             self.state = 'done'
 
